@@ -1,2 +1,160 @@
-(* C08 — stub: no theorems yet *)
-From Zap Require Import Base.Wire C08.Model C08.Proofs.
+(* C08 — output is independent of logging history and of pooled-object reuse.
+   Only statements closed by [exact]; the proofs are in C08/{Hygiene,Safe,Proofs,Facts}.v. *)
+From Coq Require Import List ZArith Bool String.
+From Coq.Strings Require Import Byte.
+Import ListNotations.
+From Zap Require Import Base.Wire Enc.Bytes Enc.Fields.
+From Zap Require Import C08.Hygiene Gen.PoolFacts C08.Model C08.Safe C08.Proofs C08.Facts.
+
+(* ---- hygiene of the facts regenerated from zap's source on every run ---- *)
+
+(* for every pooled struct, every field is assigned between Get and hand-over, or is cleared
+   before Put (and New() leaves it visibly empty too), or is the one declared capacity field
+   (Stack.storage) *)
+Theorem C08_hygiene : forall s, In s pool_facts -> forall f, In f (ps_fields s) ->
+  (exists k, lookup f (ps_acquire s) = Some k) \/
+  ((lookup f (ps_release s) = Some KZero \/ lookup f (ps_release s) = Some KTrunc) /\ new_visible_empty s f = true) \/
+  In f (capacity (ps_name s)).
+Proof. exact hygiene_fields. Qed.
+Print Assumptions C08_hygiene.
+
+(* soundness of the hygiene check, for ANY struct facts: an object that went round the pool any
+   number of times through arbitrary users is, after the acquire assignments, field for field
+   what a New() object is after the same assignments *)
+Theorem C08_hygiene_sound : forall cap s, hygienic cap s = true ->
+  forall o, pooled s o -> forall inp f, In f (ps_fields s) -> ~ In f cap ->
+  g_acquire s inp o f = g_acquire s inp (g_new s) f.
+Proof. exact hygiene_sound. Qed.
+Print Assumptions C08_hygiene_sound.
+
+(* ... and the check is not vacuous: a field neither assigned on acquire nor cleared on release
+   makes two pool histories distinguishable *)
+Theorem C08_unhygienic_leaks : forall s f,
+  lookup f (ps_acquire s) = None -> lookup f (ps_release s) = None ->
+  exists o, pooled s o /\ forall inp, g_acquire s inp o f <> g_acquire s inp (g_new s) f.
+Proof. exact unhygienic_leaks. Qed.
+Print Assumptions C08_unhygienic_leaks.
+
+(* the model's New / acquire / release code is, field by field, what the generated facts say *)
+Theorem C08_model_matches_facts : forall p,
+  (forall i f, In f (ps_fields (facts p)) -> gproj p (alloc p i) f = g_new (facts p) f) /\
+  (forall a o f, input_ok p a -> clean p o -> In f (ps_fields (facts p)) -> ~ In f (capacity (pname p)) ->
+     gproj p (m_acquire p a o) f = g_acquire (facts p) (gproj p (m_acquire p a (alloc p 0))) (gproj p o) f) /\
+  (forall o f, In f (ps_fields (facts p)) -> gproj p (m_release p o) f = g_release (facts p) (gproj p o) f).
+Proof. exact model_matches_facts. Qed.
+Print Assumptions C08_model_matches_facts.
+
+(* the pool invariant used below is exactly the conclusion of the hygiene theorem *)
+Theorem C08_clean_is_hygiene : forall p o, clean p o <-> (clean_by_facts p o /\ cap_ok p o).
+Proof. exact clean_iff_facts. Qed.
+Print Assumptions C08_clean_is_hygiene.
+
+(* in every function of zap that holds a pooled buffer (regenerated event order): once freed the
+   buffer is never used, freed or returned again, and a buffer that is not freed is returned *)
+Theorem C08_ownership_facts : forall f, In f own_facts ->
+  (forall pre post, of_events f = (pre ++ BFree :: post)%list ->
+     ~ In BUse post /\ ~ In BFree post /\ ~ In BRet post) /\
+  (In BFree (of_events f) \/ In BRet (of_events f)).
+Proof. exact own_discipline. Qed.
+Print Assumptions C08_ownership_facts.
+
+(* ---- non-interference ---- *)
+
+(* rely/guarantee form: every operation (Core.Write with the JSON or console encoder, With,
+   a Logger call with caller/stack capture, zap.Stack), whatever clean objects and whatever
+   not-already-owned buffers its Gets return, never touches a buffer it does not own, frees each
+   buffer once, puts back only clean objects, and returns exactly its specification *)
+Theorem C08_operation : forall o ow, safe (op_prog o) ow (fun _ r => r = op_spec o).
+Proof. exact op_safe. Qed.
+Print Assumptions C08_operation.
+
+(* for all histories (operations and garbage collections) and all adversaries: the observation
+   is the operation's specification, a function of the operation alone *)
+Theorem C08_observe : forall h adv o, observe h adv o = inl (op_spec o).
+Proof. exact observe_spec. Qed.
+Print Assumptions C08_observe.
+
+Theorem C08_history_independent : forall h1 h2 adv1 adv2 o, observe h1 adv1 o = observe h2 adv2 o.
+Proof. exact history_independent. Qed.
+Print Assumptions C08_history_independent.
+
+(* ownership discipline: in no history does any operation read, write or free a buffer it does
+   not own, dereference a nil pooled pointer, or loop in Capture *)
+Theorem C08_no_use_after_free : forall h adv,
+  Forall (fun r => exists x, r = inl x) (snd (run_hist h adv sh_init)).
+Proof. exact no_fault_in_history. Qed.
+Print Assumptions C08_no_use_after_free.
+
+(* for all programs (one operation list per goroutine) and all schedules (which goroutine performs
+   its next pool interaction, what the pool hands out, when the collector empties the pools): no
+   goroutine faults and every completed operation produced its specification *)
+Theorem C08_schedules : forall progs sc,
+  Forall (fun th => t_fault th = None /\ forall o r, In (o, r) (t_done th) -> r = op_spec o)
+         (m_threads (mrun (minit progs) sc)).
+Proof. exact schedules_thm. Qed.
+Print Assumptions C08_schedules.
+
+Theorem C08_wire : forall i, spec i (model i) = true.
+Proof. exact spec_model. Qed.
+Print Assumptions C08_wire.
+
+(* ---- non-vacuity ---- *)
+Definition ex_cfg : ecfg := {| c_msg := [x6d]; c_lvl := [x6c]; c_name := [x6e]; c_caller := [x63]; c_stack := [x73]; c_le := [NL]; c_sep := [TAB] |}.
+Definition ex_enc : enc := {| e_cfg := ex_cfg; e_spaced := false; e_ns := 0; e_buf := [] |}.
+Definition ex_ent : entry := {| en_lvl := [x69]; en_name := []; en_msg := [x68]; en_stack := []; en_caller := None |}.
+Definition ex_json : core := {| co_enc := ex_enc; co_console := false; co_fail := false |}.
+Definition ex_cons : core := {| co_enc := ex_enc; co_console := true; co_fail := false |}.
+Definition ex_fs : list pf := [PNs [x6e]; PRefl [x72] (ROk [x31]); PErr [x65] [x78] [[x79]]].
+Definition ex_log : logger := {| l_cores := [ex_json; ex_cons]; l_hook := Some 7; l_errout := true; l_caller := true; l_stack := true |}.
+
+(* {"l":"i","m":"h","n":{"r":1,"e":"x","eCauses":[{"error":"y"}]}}\n after a history that recycles
+   every pool, with the adversary always taking the most recently pooled object *)
+Example C08_example_line :
+  observe [HOp (OWrite ex_json ex_ent ex_fs); HOp (OWith ex_enc ex_fs); HOp (OWrite ex_cons ex_ent ex_fs); HGC;
+           HOp (OLog ex_log ex_ent [5; 6; 7] ex_fs); HOp (OTake (seq 1 70))]
+          (repeat 1 40) (OWrite ex_json ex_ent ex_fs)
+  = inl (OutBytes (ascii [123; 34; 108; 34; 58; 34; 105; 34; 44; 34; 109; 34; 58; 34; 104; 34; 44; 34; 110; 34; 58; 123;
+                          34; 114; 34; 58; 49; 44; 34; 101; 34; 58; 34; 120; 34; 44; 34; 101; 67; 97; 117; 115; 101; 115; 34; 58;
+                          91; 123; 34; 101; 114; 114; 111; 114; 34; 58; 34; 121; 34; 125; 93; 125; 125; 10]%N)).
+Proof. vm_compute. reflexivity. Qed.
+
+(* three goroutines, an interleaved schedule with a collection in the middle: all operations complete *)
+Example C08_example_schedule :
+  map (fun th => (List.length (t_done th), t_fault th))
+      (m_threads (mrun (minit [[OWrite ex_json ex_ent ex_fs; OWrite ex_cons ex_ent ex_fs]; [OLog ex_log ex_ent [1; 2] ex_fs]; [OTake [1; 2; 3]]])
+                       (List.concat (repeat [SRun 0 1; SRun 1 1; SRun 2 1; SRun 1 2; SGC; SRun 0 0] 40))))
+  = [(2, None); (1, None); (1, None)].
+Proof. vm_compute. reflexivity. Qed.
+
+(* the pool invariant is needed: the model CAN express the failures the property is about *)
+(* (a) a pooled encoder whose reflectBuf still points at a buffer that is itself in the pool:
+       the line being built is wiped by resetReflectBuf *)
+Example C08_stale_reflectbuf_is_observable :
+  snd (exec (op_prog (OWrite ex_json ex_ent ex_fs)) [1; 1]
+            {| sh_pools := {| pl_json := [{| j_cfg := None; j_buf := None; j_spaced := false; j_ns := 0; j_rbuf := Some 0; j_renc := Some 0 |}];
+                              pl_buf := [{| b_id := 0; b_bs := []; b_pool := true |}];
+                              pl_slice := []; pl_ce := []; pl_errc := []; pl_errz := []; pl_stack := [] |}; sh_next := 1 |})
+  <> inl (op_spec (OWrite ex_json ex_ent ex_fs)).
+Proof. vm_compute. discriminate. Qed.
+(* (b) a pooled slice encoder that was not truncated: the console line starts with a stale column *)
+Example C08_untruncated_elems_is_observable :
+  snd (exec (op_prog (OWrite ex_cons ex_ent [])) [0; 1]
+            {| sh_pools := {| pl_json := []; pl_buf := []; pl_slice := [{| s_elems := [[x21]] |}]; pl_ce := [];
+                              pl_errc := []; pl_errz := []; pl_stack := [] |}; sh_next := 0 |})
+  <> inl (op_spec (OWrite ex_cons ex_ent [])).
+Proof. vm_compute. discriminate. Qed.
+(* (c) a pooled CheckedEntry is harmless whatever it holds, because reset() runs on Get *)
+Example C08_dirty_checked_entry_is_harmless :
+  snd (exec (op_prog (OLog ex_log ex_ent [5; 6] [])) [1]
+            {| sh_pools := {| pl_json := []; pl_buf := []; pl_slice := [];
+                              pl_ce := [{| ce_ent := ex_ent; ce_errout := true; ce_dirty := true; ce_after := Some 9; ce_cores := [ex_cons; ex_cons] |}];
+                              pl_errc := []; pl_errz := []; pl_stack := [] |}; sh_next := 0 |})
+  = inl (op_spec (OLog ex_log ex_ent [5; 6] [])).
+Proof. vm_compute. reflexivity. Qed.
+(* (d) a Stack whose storage were empty makes Capture's growth loop diverge *)
+Example C08_empty_storage_diverges :
+  snd (exec (op_prog (OTake [1; 2])) [1]
+            {| sh_pools := {| pl_json := []; pl_buf := []; pl_slice := []; pl_ce := []; pl_errc := []; pl_errz := [];
+                              pl_stack := [{| k_pcs := []; k_frames := None; k_storage := [] |}] |}; sh_next := 0 |})
+  = inr Diverge.
+Proof. vm_compute. reflexivity. Qed.
